@@ -3,6 +3,7 @@
 // mapped onto its target (1e-9 relative), with identity, permuted and subset correspondences.
 #include "romea_core_common/transform/estimation/FindRigidTransformationBySVD.hpp"
 #include "romea_core_common/math/EulerAngles.hpp"
+#include <Eigen/Geometry>
 #include <algorithm>
 #include <cstdio>
 #include <map>
@@ -86,6 +87,35 @@ static void reuse_preconditioned(std::mt19937 & rng)
   }
 }
 
+// noisy correspondences: the estimate must be the least-squares optimal rigid motion (compared with Eigen::umeyama without scaling, an
+// independent Kabsch/Umeyama implementation) and must not depend on the order of the correspondence list
+template<int D>
+static void noisy(std::mt19937 & rng)
+{
+  using V = Eigen::Matrix<double, D, 1>;
+  Eigen::Matrix<double, D, D> R;
+  if (D == 2) { double th = u01(rng) * 3.14; R(0, 0) = std::cos(th); R(0, 1) = -std::sin(th); R(1, 0) = std::sin(th); R(1, 1) = std::cos(th); }
+  else { Eigen::Matrix3d R3 = eulerAnglesToRotation3D(Eigen::Vector3d(u01(rng) * 3.14, u01(rng) * 1.5, u01(rng) * 3.14)); for (int i = 0; i < D; ++i) for (int j = 0; j < D; ++j) R(i, j) = R3(i, j); }
+  V T; for (int i = 0; i < D; ++i) T[i] = u01(rng) * 10;
+  int n = 4 + rng() % 40;
+  PointSet<V> src, dst;
+  Eigen::Matrix<double, D, Eigen::Dynamic> ms(D, n), md(D, n);
+  for (int i = 0; i < n; ++i) {
+    V p, e; for (int k = 0; k < D; ++k) { p[k] = u01(rng) * 10; e[k] = u01(rng) * 0.05; }
+    src.push_back(p); dst.push_back(R * p + T + e); ms.col(i) = p; md.col(i) = dst.back();
+  }
+  Eigen::Matrix<double, D + 1, D + 1> ref = Eigen::umeyama(ms, md, false);
+  std::vector<Correspondence> id; for (int i = 0; i < n; ++i) id.emplace_back(i, i);
+  FindRigidTransformationBySVD<V> f;
+  Eigen::Matrix<double, D + 1, D + 1> H = f.find(src, dst, id);
+  if (!((H - ref).norm() <= 1e-9 * 20)) FAIL("%dD noisy, %d points: estimate differs from the independent Kabsch/Umeyama solution by %.3g", D, n, (H - ref).norm());
+  std::vector<Correspondence> perm = id; std::shuffle(perm.begin(), perm.end(), rng);
+  Eigen::Matrix<double, D + 1, D + 1> Hp = f.find(src, dst, perm);
+  if (!((Hp - H).norm() <= 1e-9 * 20)) FAIL("%dD noisy, %d points: the result depends on the order of the correspondences (difference %.3g)", D, n, (Hp - H).norm());
+  Eigen::Matrix<double, D + 1, D + 1> Hn = f.find(src, dst);
+  if (!((Hn - H).norm() <= 1e-9 * 20)) FAIL("%dD noisy, %d points: find(src, dst) differs from find with the identity correspondences by %.3g", D, n, (Hn - H).norm());
+}
+
 int main(int argc, char ** argv)
 {
   std::map<std::string, std::string> A;
@@ -93,7 +123,8 @@ int main(int argc, char ** argv)
   std::mt19937 rng(A.count("seed") ? (unsigned)atol(A["seed"].c_str()) : 0);
   for (int k = 0; k < 300; ++k) { trial3(rng, k % 4); trial2(rng); }
   for (int k = 0; k < 5; ++k) reuse_preconditioned(rng);
+  for (int k = 0; k < 60; ++k) { noisy<3>(rng); noisy<2>(rng); }
   if (fails) { printf("%d failing checks\n", fails); return 1; }
-  printf("no failing input found: proper rotation and exact recovery on generic, coplanar, nearly coplanar and clustered sets\n");
+  printf("no failing input found: proper rotation and exact recovery on generic, coplanar, nearly coplanar and clustered sets; noisy sets agree with Umeyama and do not depend on the order\n");
   return 0;
 }
